@@ -390,6 +390,19 @@ for _pid, _what in E2E_KINDS.items():
     _c['essential'] = list(_c['essential']) + ['e2e:signatures-released-by-the-daemon', 'e2e:requests-refused-by-the-daemon', 'e2e:daemon-restarts']
     _c['assumptions'] = list(_c['assumptions']) + ['end-to-end part: every client\'s permission entries cover disjoint accounts, because the configuration file is a map and does not fix their order']
 
+E2E_DKG_KINDS = {
+    'C12': 'a generation between real daemons that reports success while the participants list different composite keys, thresholds or participants, or whose shares do not recover under the composite key, or whose account cannot be used at once',
+    'C14': 'two conflicting duties both collecting a threshold of partial signatures from the daemons',
+    'C16': 'a key-generation message from an ordinary client answered without error',
+}
+for _pid, _what in E2E_DKG_KINDS.items():
+    _c = CHECKS[_pid]
+    _c['parts'].append(part('TestE2EDKG', 20, 300, qshards=2, tshards=8, pkg='e2e', needs_dirk=True))
+    _c['technique'] += ('; plus an end-to-end part: rapid-generated key generations between 2-4 real dirk daemons on loopback addresses (real sender, receiver, peers configuration and certificates), '
+                        'followed by listing, threshold recovery, routed conflicting duties and a SIGKILL restart of a participant')
+    _c['rule'] += ('; end-to-end cases (one generation between daemons and its use) are non-trivial iff the generation succeeded; here that part reports: ' + _what)
+    _c['essential'] = list(_c['essential']) + ['e2e:generation-between-daemons-succeeded', 'e2e:generation-between-daemons-refused']
+
 ENGINES = [
     dict(name='rapid-harness', path='/verif/harness', kind_free_text='Go test module (pgregory.net/rapid v1.3.0) compiled against /repo with -tags verif; driver /verif/check shards by seed, merges coverage, writes evidence',
          serves_properties=sorted(CHECKS)),
